@@ -175,16 +175,42 @@ class CallMixin:
                 loc["$class"] = f.cls
             caller = s1.loc
             body = strip_docstring(node.body)
+            outs = []
             for s2, o in self.ex(body, s1.with_loc(loc)):
                 s3 = s2.with_loc(caller)
                 if o[0] == "ret":
-                    yield s3, o[1]
+                    outs.append((s3, o[1]))
                 elif o[0] == "fall":
-                    yield s3, NONE
+                    outs.append((s3, NONE))
                 elif o[0] == "raise":
-                    yield s3, RaiseV(o[1])
+                    outs.append((s3, RaiseV(o[1])))
                 else:
                     raise Unsupported("break/continue escaping a function")
+            yield from self.merge_pure_returns(s1, outs)
+
+    def merge_pure_returns(self, base, outs):
+        """several normal returns of an inlined call that left heap and ghost state untouched become ONE outcome whose
+        value is the if-then-else of the individual values over their path conditions (keeps the path count a sum)"""
+        normal = [(s, v) for s, v in outs if not isinstance(v, RaiseV)]
+        if len(normal) < 2 or any(s.heap is not base.heap or s.ghost is not base.ghost or s.held != base.held
+                                  or len(s.pc) < len(base.pc) for s, v in normal):
+            yield from outs
+            return
+        n = len(base.pc)
+        try:
+            acc = normal[-1][1]
+            for s, v in reversed(normal[:-1]):
+                delta = list(s.pc[n:])
+                acc = self.merge(base, z3.And(*delta) if delta else z3.BoolVal(True), v, acc)
+        except Unsupported:
+            yield from outs
+            return
+        covered = z3.Or(*[z3.And(*s.pc[n:]) if len(s.pc) > n else z3.BoolVal(True) for s, v in normal])
+        merged = base._clone(pc=base.pc + (covered,), loc=normal[0][0].loc, nalloc=max(s.nalloc for s, v in normal))
+        yield merged, acc
+        for s, v in outs:
+            if isinstance(v, RaiseV):
+                yield s, v
 
     def call_by_contract(self, st, f, qual, args, kwargs):
         raise Unsupported("contracts at call sites not configured")
